@@ -88,10 +88,10 @@ def setup_path(world, contract, ex, ctx, prefix):
         it.assume_valid(v)
     # parameters of the real signature that the contract does not know (added by a change): unconstrained inputs of
     # the kind of their constant default - any caller-supplied value is possible
-    a = ex.node.args
-    pos = list(a.posonlyargs) + list(a.args)
-    defaults = [None] * (len(pos) - len(a.defaults)) + list(a.defaults)
-    for arg, d in list(zip(pos, defaults)) + list(zip(a.kwonlyargs, a.kw_defaults)):
+    a = ex.node.args if ex is not None else None
+    pos = (list(a.posonlyargs) + list(a.args)) if a else []
+    defaults = ([None] * (len(pos) - len(a.defaults)) + list(a.defaults)) if a else []
+    for arg, d in list(zip(pos, defaults)) + (list(zip(a.kwonlyargs, a.kw_defaults)) if a else []):
         if arg.arg in contract.params or arg.arg in it.env or arg.arg in (contract.vararg, contract.kwarg):
             continue
         if isinstance(d, ast.Constant) and isinstance(d.value, (bool, int, str)):
@@ -348,14 +348,17 @@ def discharge(ob, timeout_ms):
     ob.solver = 'z3-' + z3.get_version_string()
     r = z3.unknown
     s = None
+    if z3.is_false(g):
+        # an unconditional failure on a path the engine found feasible: only a vacuous path could discharge it
+        timeout_ms = min(timeout_ms, 4000)
     g, _sk = _skolemize_goal(g)
     hints = _ground_hints(g)
     # portfolio: (1) pure e-matching (fast, can only prove), (2) default z3 incl. MBQI (proves or refutes)
     for cfg, budget in (({'smt.mbqi': False, 'smt.auto_config': False}, min(timeout_ms, 5000)),
-                        ('cvc5', min(timeout_ms, 15000)),
+                        ('cvc5', min(timeout_ms, 15000) if not z3.is_false(g) else 0),
                         ({}, timeout_ms)):
         if cfg == 'cvc5':
-            if s is not None and cvc5_check(s, budget) == 'unsat':
+            if s is not None and budget and cvc5_check(s, budget) == 'unsat':
                 r = z3.unsat
                 ob.solver = 'cvc5-1.0.3'
                 break
